@@ -12,8 +12,8 @@ fi
 (cd $lane && ./check --setup >/dev/null 2>&1)
 n=$first
 for i in 1 2 3; do
-  if [ -f /tmp/mut/out2-$p/$i/patch.diff ]; then
-    SEED_VERIF=$lane python3 /verif/tools/seeded_confirm.py $p $n --src /tmp/mut/out2-$p/$i $4 2>&1 | tail -12
+  if [ -f /tmp/mut/${OUTP:-out2}-$p/$i/patch.diff ]; then
+    SEED_VERIF=$lane python3 /verif/tools/seeded_confirm.py $p $n --src /tmp/mut/${OUTP:-out2}-$p/$i $4 2>&1 | tail -12
   fi
   n=$((n+1))
 done
